@@ -43,6 +43,7 @@ type RunPlan struct {
 	Salt        uint64    `json:"salt"`
 	Middlewares int       `json:"middlewares"`
 	HashEvery   int       `json:"hash_every"`
+	NilAuth     bool      `json:"nil_auth,omitempty"` // leave the security hooks of the API nil (legal configuration)
 	Reqs        []ReqPlan `json:"reqs"`
 }
 
@@ -334,6 +335,9 @@ func (e *env) setup() (restore func()) {
 		api.Elem().Field(op.Field).Set(e.handlerFor(op))
 	}
 	for _, fi := range p.SecFields {
+		if e.plan.NilAuth {
+			break
+		}
 		ft := p.APIType.Field(fi)
 		name := ft.Name
 		api.Elem().Field(fi).Set(reflect.MakeFunc(ft.Type, func(args []reflect.Value) []reflect.Value {
